@@ -884,6 +884,11 @@ def replay_findings(chk, impl):
             ref = run_sql(impl, w["ref_sql"], w["dialect"])
             still = got["status"] == "ok" and ref["status"] == "ok" and got != rename(ref, w["mapping"]) \
                 and got == rename(ref, w["observed_mapping"])
+        elif w["kind"] == "sql-expect":
+            # the SQL must still give the recorded (wrong) column pairs and not the pairs the property demands
+            got = run_sql(impl, w["sql"], w["dialect"])
+            pairs = sorted([p[0], p[-1]] for p in got.get("paths", []))
+            still = got["status"] == "ok" and pairs == sorted(w["observed_pairs"]) and pairs != sorted(w["expected_pairs"])
         else:
             continue
         if still:
